@@ -1399,7 +1399,8 @@ def gen_upgrade_body_case(rng, fixed=None):
     head = (f"POST /r/0 HTTP/1.1\r\nHost: x\r\n" + UPG + f"Content-Length: {total}\r\n\r\n").encode()
     body = b"u" * total
     nxt = _plain(1)
-    beh = {"0": {"kind": rng.choice(["ok", "http"])}}
+    # "read": the handler reads the body first -- the bytes of a later read are still this request's body
+    beh = {"0": {"kind": rng.choice(["ok", "http", "read", "read"])}}
     if together:
         steps = [["data", (head + body[:first]).hex()], ["data", (body[first:] + nxt).hex()]]
     else:
